@@ -1,29 +1,344 @@
-//! C09 — IRI validation vs RFC 3987; accepted values usable as base; resolution.
+//! C09 — IRI validation vs RFC 3987; accepted values usable as base; resolution; namespaces.
 //!
 //! requests:
-//!   m <hex>            membership / classification / as_base of one string
-//!   r <hexbase> <hexref>   resolution of an accepted reference against an accepted base
+//!   m  <hex>               membership / classification / typed constructors / as_base,to_base of one string
+//!   ml <kind> <n>          the same for a long string both sides build from (kind, n)
+//!   r  <hexbase> <hexref>  resolution of an accepted reference against an accepted ABSOLUTE base, all entry points
+//!   rl <kind> <n>          the same for a long pair
+//!   rr <hexbase> <hexref>  resolution against ANY accepted reference as base (IriRef::resolve, BaseIriRef)
+//!   ns <hexns> <hexsfx>    Namespace::new / get, is_valid_suffixed_iri_ref
+use sophia_api::ns::Namespace;
+use sophia_api::term::Term;
+use sophia_iri::resolve::{BaseIri, BaseIriRef};
+use sophia_iri::{Iri, IriRef};
 use vhcore::rxgen;
 use vhcore::util::*;
 use vhcore::GenCtx;
-use sophia_iri::{Iri, IriRef};
 
 const PUNCT: &[char] = &[
     ':', '/', '?', '#', '[', ']', '@', '%', '.', '-', '0', '9', 'a', 'f', 'g', 'z', 'A', 'F', 'G', '1', '2', '5',
     '6', ' ', '\n', '<', '>', '"', '{', '}', '|', '\\', '^', '`', 'é', '\u{E000}', '\u{10FFFD}', '!', '$', '&', '\'', '(',
-    ')', '*', '+', ',', ';', '=', '~', '_', 'v',
+    ')', '*', '+', ',', ';', '=', '~', '_', 'v', 'V', '\t', '\u{0}', '\u{7F}', '\u{A0}', '\u{9F}', '\u{FFFE}', '\u{FFFD}',
 ];
+
+fn rep(n: usize, s: &str) -> String {
+    s.repeat(n)
+}
+
+/// long inputs are described, not transmitted (Driver/C09.lean `longStr` builds the same string)
+fn long_str(kind: usize, n: usize) -> Option<String> {
+    Some(match kind {
+        0 => format!("http://a/{}", rep(n, "ab/")),
+        1 => format!("http://a/?{}", rep(n, "q=1&")),
+        2 => format!("x:{}", rep(n, "%4a")),
+        3 => format!("http://{}/", rep(n, "a")),
+        4 => format!("{}g", rep(n, "../")),
+        5 => format!("http://a/{}", rep(n, "é")),
+        6 => format!("http://a/{} ", rep(n, "a")),
+        7 => format!("http://[{}]/", rep(n, "1:")),
+        8 => format!("//u@h:1/{}#{}", rep(n, "a/"), rep(n, "f")),
+        9 => format!("{}:b", rep(n, "a")),
+        10 => format!("http://a/{}%4", rep(n, "b/")),
+        11 => format!("?{}", rep(n, "\u{E000}")),
+        _ => return None,
+    })
+}
+const LONG_KINDS: usize = 12;
+
+fn long_pair(kind: usize, n: usize) -> Option<(String, String)> {
+    Some(match kind {
+        0 => (format!("http://a/{}c", rep(n, "b/")), format!("{}g", rep(n / 2, "../"))),
+        1 => ("http://a/b".to_string(), format!("{}{}g", rep(n, "x/"), rep(n, "../"))),
+        2 => (format!("x:/{}", rep(n, "b/")), format!("{}g?{}", rep(n, "./"), rep(n, "q"))),
+        3 => (format!("http://a/{}", rep(n, "b")), format!("{}#{}", rep(n, "c"), rep(n, "f"))),
+        _ => return None,
+    })
+}
+const LONG_PAIR_KINDS: usize = 4;
+
+/// shape counters for one generated member (evidence that every production is hit)
+fn member_stats(ctx: &mut GenCtx, which: &str, s: &str) {
+    ctx.stats.bump(&format!("member.{}", which));
+    if s.contains('%') {
+        ctx.stats.bump("member.pct");
+    }
+    if !s.is_ascii() {
+        ctx.stats.bump("member.non_ascii");
+    }
+    let n = s.chars().count();
+    ctx.stats.bump(match n {
+        0..=15 => "member.len.0-15",
+        16..=63 => "member.len.16-63",
+        64..=255 => "member.len.64-255",
+        _ => "member.len.256+",
+    });
+    // authority
+    let after = if which == "abs" { s.split_once(':').map(|x| x.1).unwrap_or("") } else { s };
+    if let Some(rest) = after.strip_prefix("//") {
+        ctx.stats.bump("member.authority");
+        let auth = rest.split(['/', '?', '#']).next().unwrap_or("");
+        if auth.contains('@') {
+            ctx.stats.bump("member.userinfo");
+        }
+        let host = auth.rsplit('@').next().unwrap_or("");
+        if let Some(lit) = host.strip_prefix('[') {
+            let ip = lit.split(']').next().unwrap_or("");
+            if ip.starts_with('v') || ip.starts_with('V') {
+                ctx.stats.bump("member.ipvfuture");
+            } else {
+                match ip.find("::") {
+                    Some(i) => {
+                        let pre = if i == 0 { 0 } else { ip[..i].split(':').count() };
+                        ctx.stats.bump(&format!("member.ipv6.groups_before_dc.{}", pre));
+                    }
+                    None => ctx.stats.bump("member.ipv6.full"),
+                }
+                if ip.contains('.') {
+                    ctx.stats.bump("member.ipv6.v4tail");
+                }
+            }
+            if lit.contains("]:") {
+                ctx.stats.bump("member.port");
+            }
+        } else {
+            if host.contains(':') {
+                ctx.stats.bump("member.port");
+            }
+            let h = host.split(':').next().unwrap_or("");
+            if !h.is_empty() && h.split('.').count() == 4 && h.chars().all(|c| c.is_ascii_digit() || c == '.') {
+                ctx.stats.bump("member.ipv4_host");
+            }
+            if h.is_empty() {
+                ctx.stats.bump("member.empty_host");
+            }
+        }
+    } else {
+        ctx.stats.bump("member.no_authority");
+    }
+    let hier = after.split(['?', '#']).next().unwrap_or("");
+    let path = match hier.strip_prefix("//") {
+        Some(rest) => rest.find('/').map(|i| &rest[i..]).unwrap_or(""),
+        None => hier,
+    };
+    if path.contains("//") {
+        ctx.stats.bump("member.empty_segment");
+    }
+    if path.is_empty() {
+        ctx.stats.bump("member.empty_path");
+    }
+    if s.contains('?') {
+        ctx.stats.bump("member.query");
+    }
+    if s.contains('#') {
+        ctx.stats.bump("member.fragment");
+    }
+}
+
+fn has_dot_segment(p: &str) -> bool {
+    p.split(['?', '#']).next().unwrap_or("").split('/').any(|s| s == "." || s == "..")
+}
+
+fn scheme_of(s: &str) -> Option<&str> {
+    let i = s.find([':', '/', '?', '#'])?;
+    if i > 0 && s.as_bytes()[i] == b':' { Some(&s[..i]) } else { None }
+}
+
+/// syntactic shape counters of a (base, reference) pair: which branch of RFC 3986 5.2.2 it exercises
+fn pair_stats(ctx: &mut GenCtx, tag: &str, b: &str, r: &str) {
+    let kind = if r.is_empty() {
+        "empty"
+    } else if scheme_of(r).is_some() {
+        "has_scheme"
+    } else if r.starts_with("//") {
+        "net_path"
+    } else if r.starts_with('/') {
+        "abs_path"
+    } else if r.starts_with('?') {
+        "query_only"
+    } else if r.starts_with('#') {
+        "fragment_only"
+    } else {
+        "rel_path"
+    };
+    ctx.stats.bump(&format!("{}.ref.{}", tag, kind));
+    if has_dot_segment(r) {
+        ctx.stats.bump(&format!("{}.ref.dot_segments", tag));
+    }
+    let after = match scheme_of(b) {
+        Some(s) => &b[s.len() + 1..],
+        None => b,
+    };
+    if scheme_of(b).is_none() {
+        ctx.stats.bump(&format!("{}.base.relative", tag));
+    }
+    if after.starts_with("//") {
+        ctx.stats.bump(&format!("{}.base.authority", tag));
+        let rest = &after[2..];
+        let path = rest.find(['/', '?', '#']).map(|i| &rest[i..]).unwrap_or("");
+        if path.is_empty() || path.starts_with(['?', '#']) {
+            ctx.stats.bump(&format!("{}.base.authority_empty_path", tag));
+        }
+    } else {
+        ctx.stats.bump(&format!("{}.base.no_authority", tag));
+    }
+    if has_dot_segment(after) {
+        ctx.stats.bump(&format!("{}.base.dot_segments", tag));
+    }
+    if b.contains('#') {
+        ctx.stats.bump(&format!("{}.base.fragment", tag));
+        if r.is_empty() {
+            ctx.stats.bump(&format!("{}.empty_ref_on_fragment_base", tag));
+        }
+    }
+    if b.contains('?') {
+        ctx.stats.bump(&format!("{}.base.query", tag));
+    }
+}
+
+fn dotted_ref(rng: &mut Rng) -> String {
+    let segs = ["..", ".", "a", "", "b:c", "é", "%2e", "...", ".a", "a.", "..a"];
+    let mut s = String::new();
+    match rng.below(8) {
+        0 | 1 => s.push('/'),
+        2 => s.push_str("//h"),
+        3 => s.push_str("x:"),
+        4 => s.push_str("x://h/"),
+        _ => {}
+    }
+    let lead = s.len();
+    for k in 0..rng.range(0, 5) {
+        if k > 0 || lead == 3 {
+            s.push('/');
+        }
+        let sg: &str = *rng.pick(&segs[..]);
+        s.push_str(sg);
+    }
+    if rng.chance(1, 4) {
+        s.push('/');
+    }
+    if lead == 0 && s.split('/').next().map(|x| x.contains(':')).unwrap_or(false) {
+        s = format!("./{}", s);
+    }
+    if rng.chance(1, 4) {
+        s.push_str("?q/../r");
+    }
+    if rng.chance(1, 4) {
+        s.push_str("#f/./g");
+    }
+    s
+}
+
+/// an absolute base whose own path has dot / empty segments (with and without authority)
+fn dotted_base(rng: &mut Rng) -> String {
+    let segs = ["..", ".", "a", "", "b", "é", "...", "c:d"];
+    let mut s = String::from(*rng.pick(&["x:", "x:/", "x://h", "x://h/", "http://u@h:1/", "x:a", "x://"][..]));
+    for k in 0..rng.range(0, 5) {
+        if k > 0 || s.ends_with('h') || s.ends_with('a') {
+            s.push('/');
+        }
+        let sg: &str = *rng.pick(&segs[..]);
+        s.push_str(sg);
+    }
+    // keep it an IRI: an authority-less path must not begin with "//"
+    if let Some(rest) = s.strip_prefix("x:") {
+        if !rest.starts_with("//h") && rest != "//" && !rest.starts_with("///") && rest.starts_with("//") {
+            s = format!("x:/.{}", &rest[1..]);
+        }
+    }
+    if rng.chance(1, 4) {
+        s.push_str("?q");
+    }
+    if rng.chance(1, 4) {
+        s.push_str("#f");
+    }
+    s
+}
+
+fn hexgroup(rng: &mut Rng) -> String {
+    let digits = b"0123456789abcdefABCDEF";
+    let n = rng.range(1, 4);
+    (0..n).map(|_| digits[rng.below(digits.len())] as char).collect()
+}
+
+/// every (groups before "::", groups after, with/without "::", IPv4 tail) combination, valid or not,
+/// in an absolute IRI and in a network-path reference
+fn ipv6_enumeration(ctx: &mut GenCtx) {
+    let reps = if ctx.thorough { 4 } else { 1 };
+    for _ in 0..reps {
+        for pre in 0..=8usize {
+            for post in 0..=8usize {
+                for dc in [true, false] {
+                    for v4 in [false, true] {
+                        if !dc && pre + post == 0 {
+                            continue;
+                        }
+                        let mut groups_pre: Vec<String> = (0..pre).map(|_| hexgroup(&mut ctx.rng)).collect();
+                        let mut groups_post: Vec<String> = (0..post).map(|_| hexgroup(&mut ctx.rng)).collect();
+                        if v4 {
+                            let quad = "1.2.3.4".to_string();
+                            if post > 0 {
+                                *groups_post.last_mut().unwrap() = quad;
+                            } else if !dc && pre > 0 {
+                                *groups_pre.last_mut().unwrap() = quad;
+                            } else {
+                                groups_post.push(quad);
+                            }
+                        }
+                        let ip = if dc {
+                            format!("{}::{}", groups_pre.join(":"), groups_post.join(":"))
+                        } else {
+                            let mut all = groups_pre.clone();
+                            all.extend(groups_post.clone());
+                            all.join(":")
+                        };
+                        let forms = [
+                            format!("http://[{}]/", ip),
+                            format!("//[{}]", ip),
+                            format!("s://u:p@[{}]:80/p?q#f", ip),
+                            format!("//u@[{}]:/", ip),
+                        ];
+                        let f = &forms[ctx.rng.below(forms.len())];
+                        ctx.emit(&format!("m {}", hex(f)));
+                        ctx.emit(&format!("m {}", hex(&forms[if f.starts_with("//") { 0 } else { 1 }])));
+                        ctx.stats.add("ipv6enum", 2);
+                        ctx.stats.bump(if dc { "ipv6enum.with_dc" } else { "ipv6enum.no_dc" });
+                    }
+                }
+            }
+        }
+    }
+    // dec-octet boundaries in the IPv4 tail and in host position; IPvFuture shapes
+    for o in ["0", "9", "10", "99", "100", "199", "200", "249", "250", "255", "256", "260", "300", "00", "01", "1000", ""] {
+        for pos in 0..4 {
+            let mut q = ["1", "2", "3", "4"];
+            q[pos] = o;
+            let quad = q.join(".");
+            for f in [format!("http://[::{}]/", quad), format!("//[1:2:3:4:5:6:{}]", quad), format!("http://{}/", quad), format!("//{}:8", quad)] {
+                ctx.emit(&format!("m {}", hex(&f)));
+                ctx.stats.bump("dec_octet_enum");
+            }
+        }
+    }
+    for lit in ["v1.a", "V1.a", "vF.:", "v.a", "v1.", "v1a", "vg.a", "v1.a/b", "v1.é", "v1.%41", "v12AB.a:b!$&'()*+,;=-._~", "1.2.3.4", "", "::", ":::", "::1::", "1", "v"] {
+        for f in [format!("http://[{}]/", lit), format!("//[{}]:1", lit), format!("x://[{}]", lit)] {
+            ctx.emit(&format!("m {}", hex(&f)));
+            ctx.stats.bump("ip_literal_enum");
+        }
+    }
+}
 
 pub fn generate(ctx: &mut GenCtx) {
     let abs = rxgen::parse(sophia_iri::IRI_REGEX_SRC);
     let rel = rxgen::parse(sophia_iri::IRELATIVE_REF_REGEX_SRC);
     let mut alphabet: Vec<char> = PUNCT.to_vec();
     rxgen::boundaries(&abs, &mut alphabet);
+    rxgen::boundaries(&rel, &mut alphabet);
     alphabet.sort();
     alphabet.dedup();
-    let n = if ctx.thorough { 40000 } else { 4000 };
+    let n = if ctx.thorough { 60000 } else { 6000 };
     let mut pool_abs: Vec<String> = vec![];
-    let mut pool_ref: Vec<String> = vec![];
+    let mut pool_rel: Vec<String> = vec![];
+    let mut pool_mut: Vec<String> = vec![];
     // corpus first: shapes the shipped table lacks
     for s in [
         "http://[1:2::3:4:5:6:7]/", "http://[1::2::3:4:5:6:7]/", "http://a:80junk", "A://:!", "//:!",
@@ -31,39 +346,68 @@ pub fn generate(ctx: &mut GenCtx) {
         "http://a@b:1/c?d#e", "a:", "a:/", "a://", "a:b", "a:/b//c", "", "#", "?", "/", "//", "///", ".",
         "..", "a/b:c", "a:b/c", "./a:b", "%41", "%4", "%zz", "http://ex.org/%E9", "http://é.org/é?é#é",
         "http://a/\u{E000}", "http://a/?\u{E000}", "http://a/#\u{E000}", "http://a/\u{FFFE}", "x:\u{D7FF}",
+        "http://[V7.a]/", "//[1:2:3:4:5::6:7:8]", "http://a/b#c#d", "http://a/b?c?d", "http://a b/", "http://a/\n",
+        "\nhttp://a/", "1a:b", "+a:b", "a+-.1:b", "http://a:/", "http://a:65536999/", "http://@/", "http://:@:/",
+        "http://a/%", "http://a/%4", "http://a/%4G", "http://a/%aF", ":a", "a::", "//a//", "//@", "//:", "http://[::1]a/",
+        "http://[::1]:a/", "http://a]/", "http://[/", "http://a/[", "http://a/]", "?[", "#]", "http://a/?#?#",
     ] {
         ctx.emit(&format!("m {}", hex(s)));
         ctx.stats.bump("corpus");
     }
+    ipv6_enumeration(ctx);
     for i in 0..n {
         let (h, which) = if i % 2 == 0 { (&abs, "abs") } else { (&rel, "rel") };
         let mut s = String::new();
-        rxgen::sample(h, &mut ctx.rng, &mut s, 3);
-        ctx.stats.bump(&format!("member.{}", which));
-        if s.contains('[') {
-            ctx.stats.bump("member.ip_literal");
-        }
-        if s.contains('%') {
-            ctx.stats.bump("member.pct");
-        }
-        if !s.is_ascii() {
-            ctx.stats.bump("member.non_ascii");
-        }
+        // repetition bound: mostly short, sometimes long tokens
+        let star_max = match ctx.rng.below(16) {
+            0 => 40,
+            1 | 2 => 12,
+            3 | 4 | 5 => 1,
+            _ => 3,
+        };
+        rxgen::sample(h, &mut ctx.rng, &mut s, star_max);
+        member_stats(ctx, which, &s);
         ctx.emit(&format!("m {}", hex(&s)));
         if i < 3 {
             ctx.stats.sample(format!("m {:?}", s));
         }
-        if which == "abs" && pool_abs.len() < 400 {
-            pool_abs.push(s.clone());
-        }
-        if pool_ref.len() < 400 {
-            pool_ref.push(s.clone());
+        if s.chars().count() <= 80 {
+            if which == "abs" && pool_abs.len() < 600 {
+                pool_abs.push(s.clone());
+            }
+            if which == "rel" && pool_rel.len() < 600 {
+                pool_rel.push(s.clone());
+            }
         }
         // single-edit mutants
         for _ in 0..2 {
             let m = rxgen::mutate(&s, &mut ctx.rng, &alphabet);
             ctx.stats.bump("mutant");
             ctx.emit(&format!("m {}", hex(&m)));
+            if pool_mut.len() < 600 && m.chars().count() <= 80 {
+                pool_mut.push(m);
+            }
+        }
+    }
+    // long tokens
+    let sizes: &[usize] = if ctx.thorough { &[300, 5000, 50000] } else { &[300, 5000] };
+    for k in 0..LONG_KINDS {
+        for &sz in sizes {
+            ctx.emit(&format!("ml {} {}", k, sz));
+            ctx.stats.bump("long.member");
+            ctx.stats.add("long.member.max_chars", 0);
+            let len = long_str(k, sz).map(|s| s.chars().count() as u64).unwrap_or(0);
+            let cur = ctx.stats.counters.get("long.member.max_chars").copied().unwrap_or(0);
+            if len > cur {
+                ctx.stats.counters.insert("long.member.max_chars".into(), len);
+            }
+        }
+    }
+    let psizes: &[usize] = if ctx.thorough { &[100, 2000, 10000] } else { &[100, 2000] };
+    for k in 0..LONG_PAIR_KINDS {
+        for &sz in psizes {
+            ctx.emit(&format!("rl {} {}", k, sz));
+            ctx.stats.bump("long.pair");
         }
     }
     // resolution pairs
@@ -72,51 +416,102 @@ pub fn generate(ctx: &mut GenCtx) {
         "..", "../", "../g", "../..", "../../", "../../g", "../../../g", "../../../../g", "/./g", "/../g", "g.",
         ".g", "g..", "..g", "./../g", "./g/.", "g/./h", "g/../h", "g;x=1/./y", "g;x=1/../y", "g?y/./x", "g?y/../x",
         "g#s/./x", "g#s/../x", "http:g", "a/b/../../../c", "a//b", ".//g", "a/./", "a/../", "%2e%2e/g", "x:y",
+        "//h/a/../b?q#f", "x://h/a/./b?q", "//h", "//h?q", "//u@[::1]:8/p", "?", "#", "?#", "/", "//", "/.", "/..", "/a/b/../..",
+        "...", ".../g", "a/...", "./.", "./..", "../.", "x:", "x:/", "x:/../a", "x:a/../b", "X:a",
     ];
     let base_corpus = [
         "http://a/b/c/d;p?q", "http://a", "http://a/", "x:", "x:a", "x:a/b", "x:/a", "x://", "x:///a", "http://a/b/c/d;p?q#f",
         "http://a/b/../c", "http://a/.", "http://a/b/", "x:a/b/c", "http://[::1]/a/b", "http://a?q", "x:?q", "x:#f",
+        "http://example.org/doc#", "urn:x:y#z", "http://a/b?q#", "http://a/b#f?g/h", "x:/", "x:/a/b/", "http://u@h:80/a/b/c",
+        "http://a/b/c/..", "http://a/b/c/.", "x:..", "x:.", "x:a/../b", "http://a//b//c", "x://h",
     ];
     for b in base_corpus {
         for r in rel_corpus {
             ctx.emit(&format!("r {} {}", hex(b), hex(r)));
             ctx.stats.bump("resolve.corpus");
+            pair_stats(ctx, "resolve", b, r);
         }
     }
-    let npairs = if ctx.thorough { 20000 } else { 2000 };
+    let npairs = if ctx.thorough { 30000 } else { 3000 };
     for _ in 0..npairs {
-        if pool_abs.is_empty() || pool_ref.is_empty() {
+        if pool_abs.is_empty() || pool_rel.is_empty() {
             break;
         }
-        let b = ctx.rng.pick(&pool_abs).clone();
-        let r = if ctx.rng.chance(1, 2) {
-            ctx.rng.pick(&pool_ref).clone()
+        let b = if ctx.rng.chance(1, 4) {
+            ctx.stats.bump("resolve.dotted_base");
+            dotted_base(&mut ctx.rng)
         } else {
-            // dotted relative paths
-            let segs = ["..", ".", "a", "", "b:c", "é", "%2e"];
-            let mut s = String::new();
-            if ctx.rng.chance(1, 4) {
-                s.push('/');
+            ctx.rng.pick(&pool_abs).clone()
+        };
+        let r = match ctx.rng.below(10) {
+            0 | 1 | 2 => ctx.rng.pick(&pool_rel).clone(),
+            3 => ctx.rng.pick(&pool_abs).clone(),
+            4 => {
+                ctx.stats.bump("resolve.mutant_ref");
+                ctx.rng.pick(&pool_mut).clone()
             }
-            for k in 0..ctx.rng.range(0, 4) {
-                if k > 0 {
-                    s.push('/');
-                }
-                let sg: &str = *ctx.rng.pick(&segs[..]); s.push_str(sg);
-            }
-            if s.split('/').next().map(|x| x.contains(':')).unwrap_or(false) {
-                s = format!("./{}", s);
-            }
-            if ctx.rng.chance(1, 4) {
-                s.push_str("?q");
-            }
-            if ctx.rng.chance(1, 4) {
-                s.push_str("#f");
-            }
-            s
+            5 => String::new(),
+            _ => dotted_ref(&mut ctx.rng),
         };
         ctx.stats.bump("resolve.random");
+        pair_stats(ctx, "resolve", &b, &r);
         ctx.emit(&format!("r {} {}", hex(&b), hex(&r)));
+    }
+    // relative (and absolute) references as the base: IriRef::resolve / BaseIriRef
+    let relbase_corpus = [
+        "", "a", "a/b", "a/b/", "/a/b", "/", "//h", "//h/", "//h/a/b", "?q", "#f", "a?q#f", "../x", "./x", ".", "..", "a/../b",
+        "./a:b", "//u@[::1]:8/p/q", "a//b", "//", "///a", "http://a/b/c/d;p?q",
+    ];
+    for b in relbase_corpus {
+        for r in rel_corpus {
+            ctx.emit(&format!("rr {} {}", hex(b), hex(r)));
+            ctx.stats.bump("resolve_ref.corpus");
+            pair_stats(ctx, "resolve_ref", b, r);
+        }
+    }
+    let nrr = if ctx.thorough { 15000 } else { 1500 };
+    for _ in 0..nrr {
+        if pool_abs.is_empty() || pool_rel.is_empty() {
+            break;
+        }
+        let b = if ctx.rng.chance(1, 5) { ctx.rng.pick(&pool_abs).clone() } else { ctx.rng.pick(&pool_rel).clone() };
+        let r = match ctx.rng.below(6) {
+            0 | 1 => ctx.rng.pick(&pool_rel).clone(),
+            2 => ctx.rng.pick(&pool_abs).clone(),
+            3 => ctx.rng.pick(&pool_mut).clone(),
+            _ => dotted_ref(&mut ctx.rng),
+        };
+        ctx.stats.bump("resolve_ref.random");
+        pair_stats(ctx, "resolve_ref", &b, &r);
+        ctx.emit(&format!("rr {} {}", hex(&b), hex(&r)));
+    }
+    // namespaces
+    let ns_corpus = ["http://ex.org/ns#", "http://ex.org/a/", "x:", "a", "", "#", "http://ex.org/ns#a", "http://[::1", "a b", "http://a/%4", "//h/"];
+    let sfx_corpus = ["foo", "a/b", "", " ", "a b", "#x", "é", "%41", "%4", "1", ":", ":b", "//", "[", "]", "?q#f", "\n", "::1]/", "../x"];
+    for nsv in ns_corpus {
+        for sfx in sfx_corpus {
+            ctx.emit(&format!("ns {} {}", hex(nsv), hex(sfx)));
+            ctx.stats.bump("ns.corpus");
+        }
+    }
+    let nns = if ctx.thorough { 8000 } else { 800 };
+    for _ in 0..nns {
+        let src = match ctx.rng.below(4) {
+            0 => ctx.rng.pick(&pool_rel).clone(),
+            1 => ctx.rng.pick(&pool_mut).clone(),
+            _ => ctx.rng.pick(&pool_abs).clone(),
+        };
+        let cs: Vec<char> = src.chars().collect();
+        let cut = ctx.rng.below(cs.len() + 1);
+        let (a, b): (String, String) = (cs[..cut].iter().collect(), cs[cut..].iter().collect());
+        // both orders: a wrong concatenation order shows where ns+suffix and suffix+ns differ
+        if ctx.rng.chance(1, 3) {
+            ctx.stats.bump("ns.split_swapped");
+            ctx.emit(&format!("ns {} {}", hex(&b), hex(&a)));
+        } else {
+            ctx.stats.bump("ns.split");
+            ctx.emit(&format!("ns {} {}", hex(&a), hex(&b)));
+        }
     }
 }
 
@@ -124,56 +519,203 @@ fn b(x: bool) -> &'static str {
     if x { "1" } else { "0" }
 }
 
+fn tri(r: Result<bool, String>) -> &'static str {
+    match r {
+        Ok(true) => "ok",
+        Ok(false) => "changed",
+        Err(_) => "panic",
+    }
+}
+
+fn membership(s: &str) -> String {
+    let abs = sophia_iri::is_absolute_iri_ref(s);
+    let rel = sophia_iri::is_relative_iri_ref(s);
+    let rf = sophia_iri::is_valid_iri_ref(s);
+    let new_abs = Iri::new(s).is_ok();
+    let new_ref = IriRef::new(s).is_ok();
+    let sfx_none = sophia_iri::is_valid_suffixed_iri_ref(s, None);
+    let bnew = BaseIri::new(s).is_ok();
+    let brnew = BaseIriRef::new(s).is_ok();
+    let mut out = format!(
+        "abs={} rel={} ref={} new_abs={} new_ref={} sfx_none={} bnew={} brnew={}",
+        b(abs), b(rel), b(rf), b(new_abs), b(new_ref), b(sfx_none), b(bnew), b(brnew)
+    );
+    // every accepted value must be usable as a base without panicking
+    if new_abs {
+        let r = catch(|| Iri::new(s).unwrap().as_base().to_string() == s);
+        out += &format!(" base={}", tri(r));
+        let r = catch(|| Iri::new(s.to_string()).unwrap().to_base().to_string() == s);
+        out += &format!(" tobase={}", tri(r));
+    }
+    if new_ref {
+        let r = catch(|| IriRef::new(s).unwrap().as_base().to_string() == s);
+        out += &format!(" refbase={}", tri(r));
+        let r = catch(|| IriRef::new(s.to_string()).unwrap().to_base().to_string() == s);
+        out += &format!(" reftobase={}", tri(r));
+    }
+    out
+}
+
+type Path<'a> = (&'static str, Box<dyn FnOnce() -> Option<String> + std::panic::UnwindSafe + 'a>);
+
+/// run every other entry point; names of those whose result differs from `expected`
+fn disagreeing(paths: Vec<Path<'_>>, expected: &str) -> Vec<&'static str> {
+    let mut bad = vec![];
+    for (name, f) in paths {
+        match catch(f) {
+            Ok(Some(x)) if x == expected => {}
+            _ => bad.push(name),
+        }
+    }
+    bad
+}
+
+fn resolve_abs(bs: &str, rs: &str) -> String {
+    let (Ok(base), Ok(rf)) = (Iri::new(bs), IriRef::new(rs)) else {
+        return "skip=1".into();
+    };
+    let r = catch(|| base.resolve(rf).to_string());
+    match r {
+        Ok(s) => {
+            let valid = sophia_iri::is_absolute_iri_ref(&s);
+            // every other resolution entry point must agree with Iri::resolve
+            let paths: Vec<Path> = vec![
+                ("BaseIri::resolve", Box::new(|| Some(base.as_base().resolve(rf).to_string()))),
+                ("BaseIri::resolve_into", Box::new(|| {
+                    let mut buf = String::new();
+                    Some(base.as_base().resolve_into(rf, &mut buf).to_string())
+                })),
+                ("BaseIri::resolve(&str)", Box::new(|| base.as_base().resolve(rs).ok().map(|x| x.to_string()))),
+                ("BaseIri::resolve_into(&str)", Box::new(|| {
+                    let mut buf = String::new();
+                    base.as_base().resolve_into(rs, &mut buf).ok().map(|x| x.to_string())
+                })),
+                ("Iri::to_base.resolve", Box::new(|| Some(Iri::new(bs.to_string()).unwrap().to_base().resolve(rf).to_string()))),
+                ("IriRef::resolve", Box::new(|| Some(IriRef::new(bs).unwrap().resolve(rf).to_string()))),
+                ("BaseIriRef::resolve", Box::new(|| Some(IriRef::new(bs).unwrap().as_base().resolve(rf).to_string()))),
+                ("BaseIriRef::resolve_into", Box::new(|| {
+                    let mut buf = String::new();
+                    Some(IriRef::new(bs).unwrap().as_base().resolve_into(rf, &mut buf).to_string())
+                })),
+                ("BaseIriRef::to_base_iri.resolve", Box::new(|| Some(IriRef::new(bs).unwrap().to_base().to_base_iri().resolve(rf).to_string()))),
+                ("Iri::resolve(Iri)", Box::new(|| match Iri::new(rs) {
+                    Ok(a) => Some(base.resolve(a).to_string()),
+                    Err(_) => Some(s.clone()),
+                })),
+            ];
+            let bad = disagreeing(paths, &s);
+            let mut out = format!("skip=0 res={} valid={} paths_agree={}", hex(&s), b(valid), b(bad.is_empty()));
+            if !bad.is_empty() {
+                out += &format!(" paths_bad={}", bad.join(",").replace(' ', ""));
+            }
+            out
+        }
+        Err(_) => {
+            // the &str entry point reports the resolver's error instead of unwrapping it
+            let viastr = match catch(|| base.as_base().resolve(rs).map(|x| x.to_string())) {
+                Ok(Ok(x)) => hex(&x),
+                Ok(Err(_)) => "err".to_string(),
+                Err(_) => "panic".to_string(),
+            };
+            format!("skip=0 res=panic viastr={}", viastr)
+        }
+    }
+}
+
+fn resolve_ref(bs: &str, rs: &str) -> String {
+    let (Ok(base), Ok(rf)) = (IriRef::new(bs), IriRef::new(rs)) else {
+        return "skip=1".into();
+    };
+    let r = catch(|| base.resolve(rf).to_string());
+    match r {
+        Ok(s) => {
+            let valid = sophia_iri::is_valid_iri_ref(&s);
+            let isabs = sophia_iri::is_absolute_iri_ref(&s);
+            let paths: Vec<Path> = vec![
+                ("BaseIriRef::resolve", Box::new(|| Some(base.as_base().resolve(rf).to_string()))),
+                ("BaseIriRef::resolve_into", Box::new(|| {
+                    let mut buf = String::new();
+                    Some(base.as_base().resolve_into(rf, &mut buf).to_string())
+                })),
+                ("BaseIriRef::resolve(&str)", Box::new(|| base.as_base().resolve(rs).ok().map(|x| x.to_string()))),
+                ("BaseIriRef::resolve_into(&str)", Box::new(|| {
+                    let mut buf = String::new();
+                    base.as_base().resolve_into(rs, &mut buf).ok().map(|x| x.to_string())
+                })),
+                ("IriRef::to_base.resolve", Box::new(|| Some(IriRef::new(bs.to_string()).unwrap().to_base().resolve(rf).to_string()))),
+            ];
+            let bad = disagreeing(paths, &s);
+            let mut out = format!(
+                "skip=0 rpanic=0 rres={} rvalid={} rabs={} rpaths_agree={}",
+                hex(&s), b(valid), b(isabs), b(bad.is_empty())
+            );
+            if !bad.is_empty() {
+                out += &format!(" rpaths_bad={}", bad.join(",").replace(' ', ""));
+            }
+            out
+        }
+        Err(_) => "skip=0 rpanic=1 rres=panic".into(),
+    }
+}
+
+fn namespace_req(ns: &str, sfx: &str) -> String {
+    let n = Namespace::new(ns);
+    let sfx_some = sophia_iri::is_valid_suffixed_iri_ref(ns, Some(sfx));
+    let sfx_none = sophia_iri::is_valid_suffixed_iri_ref(ns, None);
+    let mut out = format!("ns_new={}", b(n.is_ok()));
+    match &n {
+        Err(_) => out += " get=na",
+        Ok(n) => match n.get(sfx) {
+            Err(_) => out += " get=err",
+            Ok(t) => {
+                let shown = t.to_string();
+                // the term's IRI (built with new_unchecked: validated again in a dev build)
+                let iri = catch(|| t.iri().map(|i| i.as_str().to_string()));
+                let term_iri = match iri {
+                    Ok(Some(x)) if x == shown => "ok",
+                    Ok(_) => "changed",
+                    Err(_) => "panic",
+                };
+                out += &format!(" get=ok term={} term_iri={}", hex(&shown), term_iri);
+            }
+        },
+    }
+    out += &format!(" sfx={} sfx_none={}", b(sfx_some), b(sfx_none));
+    out
+}
+
 pub fn exec(line: &str) -> String {
     let f: Vec<&str> = line.split_whitespace().collect();
     match f.as_slice() {
         ["m", h] => {
             let Some(s) = unhex(h) else { return "bad-hex".into() };
-            let abs = sophia_iri::is_absolute_iri_ref(&s);
-            let rel = sophia_iri::is_relative_iri_ref(&s);
-            let rf = sophia_iri::is_valid_iri_ref(&s);
-            let new_abs = Iri::new(s.as_str()).is_ok();
-            let new_ref = IriRef::new(s.as_str()).is_ok();
-            let mut out = format!("abs={} rel={} ref={} new_abs={} new_ref={}", b(abs), b(rel), b(rf), b(new_abs), b(new_ref));
-            // every accepted value must be usable as a base without panicking
-            if new_abs {
-                let r = catch(|| {
-                    let i = Iri::new(s.as_str()).unwrap();
-                    let base = i.as_base();
-                    base.to_string() == s
-                });
-                out += &format!(" base={}", match r { Ok(true) => "ok", Ok(false) => "changed", Err(_) => "panic" });
+            membership(&s)
+        }
+        ["ml", k, n] => {
+            let (Ok(k), Ok(n)) = (k.parse::<usize>(), n.parse::<usize>()) else { return "bad-op".into() };
+            match long_str(k, n) {
+                Some(s) => membership(&s),
+                None => "bad-op".into(),
             }
-            if new_ref {
-                let r = catch(|| {
-                    let i = IriRef::new(s.as_str()).unwrap();
-                    let base = i.as_base();
-                    base.to_string() == s
-                });
-                out += &format!(" refbase={}", match r { Ok(true) => "ok", Ok(false) => "changed", Err(_) => "panic" });
-            }
-            out
         }
         ["r", hb, hr] => {
             let (Some(bs), Some(rs)) = (unhex(hb), unhex(hr)) else { return "bad-hex".into() };
-            let (Ok(base), Ok(rf)) = (Iri::new(bs.as_str()), IriRef::new(rs.as_str())) else {
-                return "skip=1".into();
-            };
-            let r = catch(|| base.resolve(rf).to_string());
-            match r {
-                Ok(s) => {
-                    let valid = sophia_iri::is_absolute_iri_ref(&s);
-                    // the two other resolution paths must agree
-                    let r2 = catch(|| base.as_base().resolve(rf).to_string());
-                    let r3 = catch(|| {
-                        let mut buf = String::new();
-                        base.as_base().resolve_into(rf, &mut buf).to_string()
-                    });
-                    let same = r2.as_deref() == Ok(s.as_str()) && r3.as_deref() == Ok(s.as_str());
-                    format!("res={} valid={} paths_agree={}", hex(&s), b(valid), b(same))
-                }
-                Err(_) => "res=panic".into(),
+            resolve_abs(&bs, &rs)
+        }
+        ["rl", k, n] => {
+            let (Ok(k), Ok(n)) = (k.parse::<usize>(), n.parse::<usize>()) else { return "bad-op".into() };
+            match long_pair(k, n) {
+                Some((bs, rs)) => resolve_abs(&bs, &rs),
+                None => "bad-op".into(),
             }
+        }
+        ["rr", hb, hr] => {
+            let (Some(bs), Some(rs)) = (unhex(hb), unhex(hr)) else { return "bad-hex".into() };
+            resolve_ref(&bs, &rs)
+        }
+        ["ns", hn, hs] => {
+            let (Some(ns), Some(sfx)) = (unhex(hn), unhex(hs)) else { return "bad-hex".into() };
+            namespace_req(&ns, &sfx)
         }
         _ => "bad-op".into(),
     }
